@@ -439,7 +439,7 @@ def r6(ctx):
         foreign = [c for c in chars if c not in (left, right)] + (['{'] if left == '{' else [])
         bad = []
         for c in foreign:
-            for body in (f'a{c}b', f'{c}ab', f'ab{c}', f' a {c} '):
+            for body in (f'a{c}b', f'{c}ab', f'ab{c}', f' a {c} ', ''):
                 line = f'text={left}{body}{right} tag={left}{body}{right} tag={left}t2{right}'
                 got = Evaluator(m, hooks=ds9.regex_hooks()).call(lex, [Const(line)], {})
                 ok = isinstance(got, DictV) and not got.has_symbolic() and {'text', 'tag'} <= set(got.keys())
@@ -456,7 +456,7 @@ def r6(ctx):
                     f'`{line}` is lexed as text={txt}, tags={tv}: the enclosed text is not kept verbatim '
                     f'({len(bad)} of the probes for this delimiter pair differ)', lex.loc())
         else:
-            ctx.ok(construct, f'{len(foreign) * 4} probes (foreign delimiter characters at start, middle, end, padded) verbatim')
+            ctx.ok(construct, f'{len(foreign) * 5} probes (foreign delimiter characters at start, middle, end, padded; empty value) verbatim')
     # the line splitter protects ';' inside free text: its pattern must know every free-text key the metadata lexer
     # treats as such (text, tag), in any letter case (keys are lower-cased by the lexer)
     par, make, lexers, raw, rmod = ds9.reader_funcs(m)
